@@ -503,11 +503,13 @@ def run_c20(tier, seed, replay=None):
             runs = list(ex.map(one, [(sp, v) for sp in scripts for v in ('plain', 'tsan')]))
         mc_results = [f.result() for f in mc_futs]
     # ---- verdict
-    viol, rc = [], 0
+    viol, rc, machinery = [], 0, []
     for x in runs:
         for b in x['val']['bads']:
             if b['msg'].startswith('MACHINERY'):
-                raise MachineryError('trace %s case %d: %s (the case also fails without any concurrency: not a C20 matter)' % (x['trace'], b['n'], b['msg']))
+                # not a C20 matter (the case also fails on one thread / ran into the time limit): tooling failure unless a real violation is found
+                machinery.append('trace %s case %d: %s' % (x['trace'], b['n'], b['msg']))
+                continue
             viol.append(dict(kind='trace', msg=b['msg'].split(' thread')[0], case=b['n'], script=x['script'], variant=x['variant']))
         if x['tsan_reports']:
             viol.append(dict(kind='tsan', msg='ThreadSanitizer', case=None, script=x['script'], variant=x['variant'], report=x['err'],
@@ -517,6 +519,10 @@ def run_c20(tier, seed, replay=None):
             raise MachineryError('the reader model violates its own property without any hazard: %s' % m)
         if m['hazard'] != 'none' and m['rc'] != 12:
             raise MachineryError('negative control: TLC did not reject hazard %s (the invariants would be vacuous)' % m['hazard'])
+    if machinery and not viol:
+        raise MachineryError('; '.join(machinery[:4]))
+    for m in machinery[:4]:
+        log('C20 note (not judged): ' + m)
     seen, nknown = set(), 0
     for v in viol:
         sig = dict(kind=v['kind'], msg=v['msg'])
